@@ -14,7 +14,7 @@ suite=$(/verif/tools/run_suite.sh $W | tr '\n' ' ')
 cd /verif
 caught=""; res="{"
 for P in $CHECKS; do
-  out=$(EAO_REPO="$W" EAO_NO_EVIDENCE=1 ./check $P quick --shards 6 2>&1); rc=$?
+  out=$(EAO_REPO="$W" EAO_NO_EVIDENCE=1 ./check $P quick --shards ${MATRIX_SHARDS:-5} 2>&1); rc=$?
   w=$(echo "$out" | grep -E 'witness' | head -1 | cut -c12-330 | sed 's/\\/\\\\/g; s/"/\\"/g')
   res="$res\"$P\": {\"exit\": $rc, \"witness\": \"$w\"},"
   [ $rc -eq 1 ] && caught="$caught $P"
